@@ -54,15 +54,19 @@ func VerifC19SharedWrites() {
 		vrtYamlFile(w+"/compose.yaml", doc)
 		details.ConfigFiles = []types.ConfigFile{{Filename: w + "/compose.yaml"}}
 	}
+	// option values the caller keeps and passes to every load: the profile list (deliberately not in
+	// alphabetical order) is shared like the ConfigDetails
+	profiles := []string{"q", "p", "a"}
 	opts := func(o *Options) {
 		if imperative {
 			o.SetProjectName("p", true)
 		} else {
 			o.SetProjectName("q", false)
 		}
+		o.Profiles = profiles
 	}
 	if vrtEngine() {
-		vrtTrackShared(&details, env)
+		vrtTrackShared(&details, env, profiles)
 		_, err := LoadWithContext(context.Background(), details, opts)
 		vrtObserve("err", err != nil)
 		for _, wr := range vrtTrackReportAll() {
@@ -83,4 +87,73 @@ func VerifC19SharedWrites() {
 	}
 	wg.Wait()
 	vrtObserve("err", false)
+}
+
+// VerifC19TwoLoads: two loads of the same files run concurrently with different environments (the engine
+// interleaves them at every synchronisation point the library has, within the preemption bound); each returns
+// what it returns alone.
+func VerifC19TwoLoads() {
+	w := vrtRoot() + "/w"
+	shape := vrtChoice("shape", 3)
+	main := map[string]any{"services": map[string]any{
+		"one": map[string]any{"image": "app:${TAG}", "environment": []any{"T=${TAG}"}},
+		"two": map[string]any{"image": "app:${TAG}"},
+	}}
+	switch shape {
+	case 1: // both services extend a service of another file whose values are interpolated
+		vrtYamlFile(w+"/base.yaml", map[string]any{"services": map[string]any{"b": map[string]any{"image": "app:${TAG}", "labels": map[string]any{"t": "${TAG}"}}}})
+		main = map[string]any{"services": map[string]any{
+			"one": map[string]any{"extends": map[string]any{"file": "base.yaml", "service": "b"}},
+			"two": map[string]any{"extends": map[string]any{"file": "base.yaml", "service": "b"}},
+		}}
+	case 2: // an included file with interpolated values, and an env file
+		vrtYamlFile(w+"/inc/compose.yaml", map[string]any{"services": map[string]any{"one": map[string]any{"image": "app:${TAG}"}}})
+		vrtFile(w+"/e.env", "T=${TAG}\n")
+		main = map[string]any{"include": []any{"inc/compose.yaml"}, "services": map[string]any{"two": map[string]any{"image": "app:${TAG}", "env_file": []any{"e.env"}}}}
+	}
+	vrtYamlFile(w+"/compose.yaml", main)
+	load := func(tag string) (*types.Project, error) {
+		return LoadWithContext(context.Background(), types.ConfigDetails{
+			WorkingDir:  w,
+			ConfigFiles: []types.ConfigFile{{Filename: w + "/compose.yaml"}},
+			Environment: types.Mapping{"TAG": tag},
+		}, func(o *Options) { o.SetProjectName("p"+tag, true) })
+	}
+	vrtSetPreemptions(vrtParam("PREEMPT", 2))
+	var wg sync.WaitGroup
+	var pa, pb *types.Project
+	var ea, eb error
+	wg.Add(2)
+	go func() {
+		defer wg.Done()
+		pa, ea = load("a")
+	}()
+	go func() {
+		defer wg.Done()
+		pb, eb = load("b")
+	}()
+	wg.Wait()
+	vrtObserve("err", ea != nil || eb != nil)
+	vrtAssert("concurrent-loads-succeed", ea == nil && eb == nil)
+	if ea != nil || eb != nil {
+		return
+	}
+	check := func(p *types.Project, tag string) {
+		vrtAssert("concurrent-load-returns-its-own-name", p.Name == "p"+tag)
+		for _, n := range []string{"one", "two"} {
+			vrtAssert("concurrent-load-returns-its-own-result", p.Services[n].Image == "app:"+tag)
+		}
+		switch shape {
+		case 0:
+			v := p.Services["one"].Environment["T"]
+			vrtAssert("concurrent-load-returns-its-own-result", v != nil && *v == tag)
+		case 1:
+			vrtAssert("concurrent-load-returns-its-own-result", p.Services["one"].Labels["t"] == tag && p.Services["two"].Labels["t"] == tag)
+		case 2:
+			v := p.Services["two"].Environment["T"]
+			vrtAssert("concurrent-load-returns-its-own-result", v != nil && *v == tag)
+		}
+	}
+	check(pa, "a")
+	check(pb, "b")
 }
